@@ -579,7 +579,21 @@ func (wd *world) startRecipe(tp *engine.Tape) {
 				{Address: "10.1.7.1", Locality: "region1/zone1", Labels: map[string]string{"version": "v1"}},
 				{Address: "10.1.7.2", Locality: "region2/zone2", Labels: map[string]string{"version": "v2"}}}}
 	}
-	switch tp.Choose(5, "recipe") {
+	switch tp.Choose(6, "recipe") {
+	case 5: // two rules of one namespace for the same host are merged into one; the younger one is edited
+		pool := func(n int32) *networking.DestinationRule {
+			return &networking.DestinationRule{Host: h, Subsets: []*networking.Subset{{Name: "v1", Labels: map[string]string{"version": "v1"},
+				TrafficPolicy: &networking.TrafficPolicy{ConnectionPool: &networking.ConnectionPoolSettings{Tcp: &networking.ConnectionPoolSettings_TCPSettings{MaxConnections: n}}}}}}
+		}
+		wd.recipe = []func(tp *engine.Tape) mutation{
+			func(tp *engine.Tape) mutation { settle("b", "se3"); return wd.put("ServiceEntry", "b", "se3", se([]string{"*"}), 0) },
+			func(tp *engine.Tape) mutation {
+				return wd.put("DestinationRule", "b", "dr1", &networking.DestinationRule{Host: h, TrafficPolicy: &networking.TrafficPolicy{LoadBalancer: lbs[0]}}, 0)
+			},
+			func(tp *engine.Tape) mutation { return wd.put("DestinationRule", "b", "dr2", pool(7), 1) },
+			func(tp *engine.Tape) mutation { return wd.put("DestinationRule", "b", "dr2", pool(9), 1) },
+			func(tp *engine.Tape) mutation { return wd.put("DestinationRule", "b", "dr2", pool(11), 1) },
+		}
 	case 3: // a service and the rule that gives it subsets go away together (one push when the gaps are short)
 		wd.recipe = []func(tp *engine.Tape) mutation{
 			func(tp *engine.Tape) mutation { settle("a", "se1"); return wd.put("ServiceEntry", "a", "se1", se(nil), 0) },
